@@ -353,7 +353,7 @@ package openapiv3
 //@   at-call CreateSchemaProxyRef requires refers_to_the_variant_key: arg0 == "#/components/schemas/" + spec.variantSchemaKey(msgName, variant.DiscriminatorVal)
 //@   at-call Set requires keyed: arg0 == arg0
 //@   at-call CreateSchemaProxyRef requires refers_to_what_was_just_registered: arg0 == "#/components/schemas/" + lastArgString("Set", "0")
-//@   loop 1 invariant count("CreateSchemaProxyRef") == old(count("CreateSchemaProxyRef")) + _i1 && len(refs) == _i1
+//@   loop 1 invariant len(refs) == _i1
 //@   ensures one_ref_per_variant: len(r) == old(len(info.Variants))
 
 // the discriminator mapping sends each value to the same key
